@@ -31,6 +31,8 @@ def dataset_specs(draw, systems=None, max_nq=4, max_na=3, families=("power", "po
     nv = draw(st.integers(min_nv, max_nv))
     nq = draw(st.integers(1, max_nq))
     na = draw(st.integers(1, max_na))
+    if na == 1 and nq == 1:
+        nq = 2                       # at least three non-acoustic modes
     seed = draw(st.integers(0, 2 ** 32 - 1))
     vmax = draw(st.floats(150.0, 2500.0))
     span = draw(st.floats(1.18, 1.45))
